@@ -96,6 +96,9 @@ pub enum Ev
     InstEntity { inst: u8, e: u64 },
     /// A wrapper op was skipped or filtered (world-reactor dedupe); payload: number of triggers kept.
     Kept { uid: u32, n: u8 },
+    /// Bulk auto-despawn observation at a collection: entities whose signals were all dropped before it (`released`, of which
+    /// `survivors` are still alive) and entities with a clone still held (`held`, of which `lost` are gone).
+    Bulk { uid: u32, released: u32, survivors: u32, held: u32, lost: u32 },
     /// A `single*` accessor ran: the entity it reported and the value it saw before writing.
     Single { uid: u32, e: u64, old: Option<u8> },
     /// syscall family: callee body, and value returned to the caller.
